@@ -13,7 +13,7 @@ Conventions of the translation (the trusted part):
   * integer literals dec/hex/octal/binary with `_` and type suffixes; `true`/`false` are 1/0; `as T`, `T::try_from(e)`, `T::from(e)`,
     `.try_into()`, `.into()`, `.expect(..)`, `.unwrap()`, `&e`, `*e` are ignored (value-preserving in the ranges FnTie.v states);
   * `lit.rotate_right(k)` / `rotate_left` on a literal of known width (suffix, or declared type of the const/let) is folded;
-  * a place `a.b[0].c` and `place.len()` are VARIABLES named by their normalised source text;
+  * a place `a.b[0].c` and `place.len()` / `place.index()` are VARIABLES named by their normalised source text;
   * immutable `let x = e;` / `const X: T = e;` inside the function are inlined (in source order, so shadowing works); `let mut`
     variables, parameters, fields and file-level constants stay variables;
   * `!e` is the BOOLEAN negation (the extractors use it only where the operand is a bool);
@@ -132,6 +132,7 @@ BINOPS = [  # lowest precedence first; (tokens -> op name), associativity is lef
     {"|": "Or"}, {"^": "Xor"}, {"&": "And"}, {"<<": "Shl", ">>": "Shr"}, {"+": "Add", "-": "Sub"}, {"*": "Mul"},
 ]
 CAST_FNS = {"try_from", "from"}
+PLACE_METHODS = {"len", "index"}          # nullary getters: `place.len()` / `place.index()` are variables of that name
 IDENTITY_METHODS = {"try_into", "into", "expect", "unwrap", "clone", "to_owned"}
 KEYWORDS = {"let", "const", "if", "else", "while", "for", "loop", "match", "return", "fn", "mut", "as", "unsafe", "break", "continue",
             "struct", "enum", "impl", "pub", "use", "mod", "in", "ref", "move", "async", "await", "dyn", "where", "static"}
@@ -255,8 +256,8 @@ class Parser:
                     self.i = close + 1
                     if name in IDENTITY_METHODS:
                         continue
-                    if name == "len" and not args and a[0] == "var":
-                        a = ("var", a[1] + ".len()")
+                    if name in PLACE_METHODS and not args and a[0] == "var":
+                        a = ("var", a[1] + "." + name + "()")
                         continue
                     if name in ("rotate_right", "rotate_left") and a[0] == "lit" and a[2]:
                         k = Parser(list(args)).expr_all()
